@@ -104,6 +104,38 @@ CHECKS["C20"] = dict(
     engine="gev",
 )
 
+_CSS_NOTE = "Trusted: the annotated generator (self-checked on every case: cssparser must read the input as the intended token list, otherwise the case is discarded and counted), cssparser 0.34 as tokenizer of the outputs, the expected-output function."
+CHECKS["C08"] = dict(
+    technique="token-stream monitor: outputs re-tokenised by cssparser vs the expected token sequence computed from the annotated generator; whitespace obligations (must / must not) checked per adjacency; verbatim micro-syntax groups",
+    text="Stylesheets generated from a CSS grammar (selector functions nested to depth 3, rule-bearing and other at-rules nested to depth 4, every token kind in declaration values, calc nests, escaped identifiers, unicode-range, An+B) are transformed under random option sets; both outputs are re-tokenised and must equal the expected token sequence; whitespace that was annotated as meaningful must survive and whitespace must not appear where it would change the meaning; unicode-range values are read back from the raw output.",
+    note=_CSS_NOTE, ref="2/C08", engine="css-oracle",
+)
+CHECKS["C09"] = dict(
+    technique="token-stream monitor focused on class selectors and sign comments: the set of rewritten identifiers and the comments of both outputs vs the annotation `is_class_name`",
+    text="Same generator; every identifier annotated as a class selector (at any depth of selector functions, inside rule-bearing at-rules and at-rule prelude blocks) must appear as `P--name`, preceded by the sign comment when configured; every other token (ids, types, attribute values, pseudo names, keyframe selectors, custom properties, `.5`, `a.b` and `.x` in values) must be unchanged; the comments of the outputs must be exactly the expected sign / placeholder comments.",
+    note=_CSS_NOTE, ref="2/C09", engine="css-oracle",
+)
+CHECKS["C10"] = dict(
+    technique="numeric monitor: every numeric token of the outputs vs value*100/ratio (rpx) or the input value, integers exactly, with bug-compatible matchers for two pinned findings",
+    text="Integers across the i32 range, decimals with 1-9 significant digits, exponents, signed and leading-dot spellings, look-alike units (RPX, rpxx, erpx) in declarations, functions, calc, media/container queries and custom properties, ratios {750, 375, 10, 1, 0.5, 7}: rpx must become vw with value*100/ratio within single precision, other numbers must keep their value (integers exactly). The 6-significant-digit float printer and the unconverted bare at-rule prelude are recorded findings pinned by the repository's tests and matched bug-compatibly.",
+    note=_CSS_NOTE, ref="2/C10", engine="css-oracle",
+)
+CHECKS["C17"] = dict(
+    technique="partition monitor: both outputs re-tokenised and compared with the expected placement of every rule; warnings and brace balance checked",
+    text=":host rules at at-rule depth 0-4 interleaved with ordinary rules under all of {convert_host, class_prefix, host_is}: each plain :host rule must appear only in the low-priority output as [wx-host=P] (+ ,[is=H]) inside a replay of its at-rule chain, combined :host selectors must vanish from both outputs with exactly one warning each, everything else must stay in the normal output in order; with conversion off the low-priority output is empty.",
+    note=_CSS_NOTE, ref="2/C17", engine="css-oracle",
+)
+CHECKS["C18"] = dict(
+    technique="placeholder monitor: the comment emitted for every @import is percent-decoded and compared with the path; wrappers and position warnings vs the generated conditions",
+    text="@import in string, url() and url(\"...\") form with paths over quotes, spaces, `*/`, `%`, CJK, with every combination of layer() / supports() / media conditions, at the top and after other rules: with a sign the placeholder must start with the sign, decode to the exact path, sit inside @layer/@supports/@media wrappers equivalent to the conditions (balanced), and IllegalImportPosition must be reported exactly for imports that follow other rules; without a sign the rule must pass through token for token.",
+    note=_CSS_NOTE, ref="2/C18", engine="css-oracle",
+)
+CHECKS["C19"] = dict(
+    technique="source-map monitor: entries of extract_source_map vs the real UTF-16 column of every output token and the start of its annotated source token; JSON round trip with an own VLQ decoder; output-column invariant at the append tap",
+    text="For every non-whitespace token of both outputs (replayed wrappers excluded) an entry must exist at the token's real UTF-16 column, pointing at the start of the input token it came from (closing brackets may use the opening bracket, synthesised tokens any position of the triggering rule), rewritten tokens must carry the original spelling as name, entries must be non-decreasing and the JSON serialisation must decode to the same entries; the CssAppend tap checks utf16_len against the real output length after every append.",
+    note=_CSS_NOTE, ref="2/C19", engine="css-oracle",
+)
+
 NOT_YET = {}
 
 
